@@ -196,11 +196,11 @@ func (r *Run) mergeInputs(fi *prog.FuncInfo, call *ast.CallExpr) (producers []*t
 
 func init() {
 	prop("C03",
-		"(a) state keys are [key group][0x00][length-prefixed subject][length-prefixed namespace][entry key], the per-subject scan prefix is the first four segments (prefix-free because the subject is length-prefixed), and the decoder mirrors the encoder (C05.e); (b) within a batch the state of a key is read with that key's prefix before the handler runs and mutations / timers are applied after it returns, for the key the handler named; (c) every mutation kind is applied: put -> DB.Put, delete -> DB.Delete, under the key built from (subject, namespace, entry key); (d) tombstones survive every merge of a scan except into the oldest input, and the user-facing scan filters them after the last merge; (e) lookups prefer the newest version (C07.a, C07.b, C07.c, C07.g).",
+		"(a) state keys are [key group][0x00][length-prefixed subject][length-prefixed namespace][entry key], the per-subject scan prefix is the first four segments (prefix-free because the subject is length-prefixed), and the decoder mirrors the encoder (C05.e); (b) within a batch the state of a key is read with that key's prefix before the handler runs, kept only in containers created for this batch, and mutations / timers are applied after it returns, for the key the handler named; (c) every mutation kind is applied: put -> DB.Put, delete -> DB.Delete, under the key built from (subject, namespace, entry key); (d) tombstones survive every merge of a scan except into the oldest input, and the user-facing scan filters them after the last merge; (e) lookups prefer the newest version (C07.a, C07.b, C07.c, C07.g).",
 		"namespaces of 256 bytes or more (one length byte) — outside the statement's quantifier; equality with a shadow map over histories.")
 
 	register(&Obligation{ID: "C03.b", Props: []string{"C03"}, Template: "must-precede+value-identity",
-		Desc: "Operator.processEventBatch: GetState(key) with its error checked precedes the handler call; ApplyMutations and SetTimer follow the successful handler call and use the key the handler returned; GetState scans exactly encodeSubjectKey(key) and returns scan errors",
+		Desc: "Operator.processEventBatch: GetState(key) with its error checked precedes the handler call; ApplyMutations and SetTimer follow the successful handler call and use the key the handler returned; the containers of key states are created per batch; GetState scans exactly encodeSubjectKey(key) and returns scan errors",
 		Run: func(r *Run) {
 			f := r.P.Func("workers/operator", "(*Operator).processEventBatch")
 			info := f.Pkg.TypesInfo
@@ -242,6 +242,103 @@ func init() {
 				}
 				return true
 			})
+			// every container of key states the batch uses (the by-key cache that lets a second event
+			// of the same key skip GetState, the slice handed to the handler) is created in this call:
+			// one that outlives the batch would hand the handler the state read for an earlier batch
+			isKeyStates := func(t types.Type) bool {
+				var el types.Type
+				switch u := t.Underlying().(type) {
+				case *types.Map:
+					el = u.Elem()
+				case *types.Slice:
+					el = u.Elem()
+				default:
+					return false
+				}
+				if p, ok := el.Underlying().(*types.Pointer); ok {
+					el = p.Elem()
+				}
+				n, ok := el.(*types.Named)
+				return ok && n.Obj().Name() == "KeyState" && n.Obj().Pkg() != nil && strings.HasSuffix(n.Obj().Pkg().Path(), "handlerpb")
+			}
+			cleared := map[string]bool{}
+			for _, st := range f.Decl.Body.List {
+				if es, ok := st.(*ast.ExprStmt); ok {
+					if call, ok := es.X.(*ast.CallExpr); ok && len(call.Args) == 1 {
+						if id, ok := call.Fun.(*ast.Ident); ok && id.Name == "clear" && info.Uses[id] == types.Universe.Lookup("clear") {
+							cleared[types.ExprString(deref(info, call.Args[0]))] = true
+						}
+					}
+				}
+				stop := false
+				ast.Inspect(st, func(nd ast.Node) bool {
+					switch nd.(type) {
+					case *ast.ForStmt, *ast.RangeStmt:
+						stop = true
+					}
+					return !stop
+				})
+				if stop {
+					break
+				}
+			}
+			nCont := 0
+			seenCont := map[types.Object]bool{}
+			inspect(f.Decl.Body, func(nd ast.Node) bool {
+				var base ast.Expr
+				switch x := nd.(type) {
+				case *ast.IndexExpr:
+					base = x.X
+				case *ast.RangeStmt:
+					base = x.X
+				default:
+					return true
+				}
+				tv, ok := info.Types[base]
+				if !ok || !isKeyStates(tv.Type) {
+					return true
+				}
+				if o := prog.IdentObj(info, base); o != nil {
+					if seenCont[o] {
+						return true
+					}
+					seenCont[o] = true
+				}
+				nCont++
+				r.Site(base.Pos(), "key-state container "+types.ExprString(base))
+				src := ast.Unparen(deref(info, base))
+				fresh := false
+				switch y := src.(type) {
+				case *ast.CompositeLit:
+					fresh = true
+				case *ast.CallExpr:
+					if id, ok := y.Fun.(*ast.Ident); ok && id.Name == "make" && info.Uses[id] == types.Universe.Lookup("make") {
+						fresh = true
+					}
+					for _, nm := range [][2]string{{"slices", "Collect"}, {"slices", "AppendSeq"}, {"maps", "Values"}} {
+						if _, ok := isCallToNamed(info, y, nm[0], nm[1]); ok {
+							fresh = true // collected from another container, which is judged where it is ranged / indexed
+						}
+					}
+				case *ast.Ident:
+					// `var m map[..]..` / `var s []..` declared in this call and filled by append
+					if v, ok := info.Uses[y].(*types.Var); ok && !v.IsField() && v.Pkg() != nil && v.Parent() != v.Pkg().Scope() && !(v.Pos() >= f.Decl.Type.Pos() && v.Pos() <= f.Decl.Type.End()) && (f.Decl.Recv == nil || !(v.Pos() >= f.Decl.Recv.Pos() && v.Pos() <= f.Decl.Recv.End())) {
+						fresh = true
+					}
+				case *ast.SelectorExpr:
+					// a field of the handler's response (resp.KeyResults is not a KeyState container, but be exact)
+				}
+				if !fresh && cleared[types.ExprString(src)] {
+					fresh = true
+				}
+				if !fresh {
+					r.Fail(f.Name()+":state-cache-outlives-batch", base.Pos(), nil, "the key states of the batch are kept in %s, which is not created in this call: after a batch that failed past GetState (or across a redeploy) the handler is given the state read for an earlier batch instead of the stored state", types.ExprString(src))
+				}
+				return true
+			})
+			if nCont == 0 {
+				r.Note("processEventBatch keeps no container of key states")
+			}
 			// GetState is called with the event's key and the state is stored under that key
 			gs := r.P.Func("workers/operator", "(*KeyedStateStore).GetState")
 			gi := gs.Pkg.TypesInfo
